@@ -515,6 +515,7 @@ pub fn run_check(ctx: &Ctx) -> i32 {
         soup_sweep(ctx, "F<=3 x 7 capture sets x strict{t,f} x L0,L1 + public handlers", Space::Frags { k, max: 3 }, Depth::L1);
         soup_sweep(ctx, "Fcore<=4 x 7 capture sets x strict{t,f} x L0 + public handlers", Space::Frags { k: F_CORE, max: 4 }, Depth::L0);
         ctx_sweep(ctx, "17 HTML contexts x F<=2 x L0,L1", k, 2, Depth::L1);
+        ctx_sweep(ctx, "17 HTML contexts x Fcore<=3 x L0", F_CORE, 3, Depth::L0);
         g_sweep(ctx, "G<=6 nodes x L0,L1", 6, Depth::L1);
         start_tag_syntax_sweep(ctx, "12 element names x attribute-syntax pieces<=4 x L0,L1", 4, Depth::L1);
     } else {
@@ -522,6 +523,7 @@ pub fn run_check(ctx: &Ctx) -> i32 {
         soup_sweep(ctx, "Fcore<=4 x L0,L1", Space::Frags { k: F_CORE, max: 4 }, Depth::L1);
         soup_sweep(ctx, "F<=4 x L0", Space::Frags { k, max: 4 }, Depth::L0);
         ctx_sweep(ctx, "17 HTML contexts x F<=3 x L0,L1", k, 3, Depth::L1);
+        ctx_sweep(ctx, "17 HTML contexts x Fcore<=4 x L0", F_CORE, 4, Depth::L0);
         g_sweep(ctx, "G<=7 nodes x L0,L1", 7, Depth::L1);
         start_tag_syntax_sweep(ctx, "12 element names x attribute-syntax pieces<=5 x L0,L1", 5, Depth::L1);
     }
